@@ -59,6 +59,12 @@ impl<'a, T: DDNNFPtr<'a>> IteTable<'a, T> for LruIteTable<T> {
 
 impl<'a, T: DDNNFPtr<'a>> LruIteTable<T> {
     fn new() -> LruIteTable<T> {
+        #[cfg(feature = "verif_hooks")]
+        if let Some(cap) = crate::verif_hooks::lru_capacity() {
+            return LruIteTable {
+                table: Lru::new(cap),
+            };
+        }
         LruIteTable {
             table: Lru::new(INITIAL_CAPACITY),
         }
